@@ -80,6 +80,14 @@ def check_valid(case, ctx):
             if st_ == "exc":
                 raise Violation("C09/valid/from_wif-raised", "from_wif(%s) [%s, k=%#x] raised %r" % (w, flav, k, back))
             expect_eq("C09/valid/from_wif-roundtrip", "from_wif(wif(%s)) for k=%#x" % (flav, k), bytes(back), k32)
+            # a key imported from one flavour is written out in every other flavour on request
+            for c2 in (True, False):
+                for t2 in (True, False):
+                    st_, w3 = call(back.wif, compressed=c2, testnet=t2)
+                    want3 = (b"\xef" if t2 else b"\x80") + k32 + (b"\x01" if c2 else b"")
+                    if st_ == "exc" or b58.decode_check(w3) != want3:
+                        raise Violation("C09/valid/wif-payload[after-import]", "from_wif(<%s>).wif(compressed=%s, testnet=%s) = %r, "
+                                        "expected payload %s" % (flav, c2, t2, w3, want3.hex()))
             # the same flavour asked for with 0 / 1 instead of False / True, keyword and positional
             for how, f in (("keyword 0/1", lambda: pk.wif(compressed=int(compressed), testnet=int(testnet))),
                            ("positional 0/1", lambda: pk.wif(int(compressed), int(testnet)))):
@@ -275,11 +283,12 @@ def check_bad_sec(case, ctx):
         return
     for name, f in (("PublicKey.parse", lambda: Pub.parse(enc)),
                     ("PubKeyNode.public_key", lambda: PubNode(key=enc, chain_code=b"\x00" * 32).public_key)):
-        st_, val = call(f)
-        if st_ == "ok":
-            st2, s2 = call(val.sec)
-            raise Violation("C09/reject/bad-sec-accepted[%s]" % case["kind"],
-                            "%s(%s) [%s] returned a key that re-serialises as %r" % (name, enc.hex(), case["kind"], s2))
+        for attempt in (1, 2, 3):           # refused once must mean refused every time
+            st_, val = call(f)
+            if st_ == "ok":
+                st2, s2 = call(val.sec)
+                raise Violation("C09/reject/bad-sec-accepted[%s]%s" % (case["kind"], "" if attempt == 1 else "/on-retry"),
+                                "%s(%s) [%s], attempt %d, returned a key that re-serialises as %r" % (name, enc.hex(), case["kind"], attempt, s2))
 
 
 def gen_hybrid(tier):
